@@ -241,7 +241,7 @@ pub fn check_views(l: &mut Local, s: &[u8], wellformed: bool, must_accept_pt: Op
 
 pub fn c09(ctx: &mut Ctx) {
     ctx.rule = "(a) well-formed SR/RR/APP/BYE/feedback/unknown packets and bare report blocks from the independent encoder over the walk alphabets: must be accepted, every scalar accessor equals the big-endian read at the RFC offset, every range accessor equals the reference range, every returned slice is a sub-slice of the input at the expected offset; (b) every string of the framing spaces accepted by a fixed-layout parser: same scalar and containment checks, ranges where the string is well-formed; non-trivial = at least one parser accepted, distinct by fingerprint".into();
-    ctx.bound("(a)", ctx.tier.pick("the C02/C04/C05/unknown configuration spaces (k<=2 deviations), encoded by the reference encoder", "same with k<=3"));
+    ctx.bound("(a)", ctx.tier.pick("the C02/C04/C05/unknown configuration spaces (k<=2 deviations), encoded by the reference encoder", "same with the thorough spaces (k<=2 over 30 shapes, k<=3 over 4 shapes)"));
     ctx.bound("(b)", "framing spaces S1, S2 (k<=1 full, k=2 reduced alphabet), S5");
     let mut spaces = gens::sr_rr_spaces(ctx.tier, ctx.seed);
     spaces.extend(gens::bye_spaces(ctx.tier, ctx.seed));
